@@ -1705,7 +1705,9 @@ THEOREMS = {
             "Iauthd.Proto.reqEvent_settles", "Iauthd.Proto.xqReply_settles"],
     "C04": ["Iauthd.Properties.C04_stray_tag", "Iauthd.Properties.C04_not_awaited", "Iauthd.Properties.C04_tag_exact",
             "Iauthd.Properties.C04_others", "Iauthd.Proto.parseTag_range", "Iauthd.Proto.validateRequest_serial", "Iauthd.Proto.parseTag_routing",
-            "Iauthd.Properties.C04_tag_readback", "Iauthd.Properties.C04_tag_injective"],
+            "Iauthd.Properties.C04_tag_readback", "Iauthd.Properties.C04_tag_injective",
+            "Iauthd.Properties.C04_slots_alive", "Iauthd.Properties.C04_reload_slots", "Iauthd.Proto.runOps_refd",
+            "Iauthd.Proto.applyConfig_ref", "Iauthd.Proto.xqReply_ref", "Iauthd.Proto.reqEvent_ref"],
     "C05": ["Iauthd.Properties.C05_refusal", "Iauthd.Properties.C05_vouch", "Iauthd.Properties.C05_stamp_shape",
             "Iauthd.Properties.C05_blank_is_plain", "Iauthd.Properties.C05_dronecheck_no_stamp", "Iauthd.Proto.okStamp_some"],
     "C06": ["Iauthd.Properties.C06_query_iff", "Iauthd.Properties.C06_eligible", "Iauthd.Properties.C06_malformed_password",
@@ -1757,7 +1759,8 @@ def lean_modules(prop):
          "Iauthd.Proto.History01", "Iauthd.Properties.C09"] if prop in ("C01", "C10") else []) + (
         ["Iauthd.Proto.Count10", "Iauthd.Properties.C01"] if prop == "C10" else []) + (
         ["Iauthd.Proto.Settle03", "Iauthd.Proto.Settle03H", "Iauthd.Proto.RenderInv", "Iauthd.Proto.RenderStep", "Iauthd.Proto.Render",
-         "Iauthd.Proto.RenderHex", "Iauthd.Proto.RenderLines"] if prop == "C03" else []) + ["Iauthd.Properties." + prop]
+         "Iauthd.Proto.RenderHex", "Iauthd.Proto.RenderLines"] if prop == "C03" else []) + (
+        ["Iauthd.Proto.RefInv", "Iauthd.Proto.RefInvH"] if prop == "C04" else []) + ["Iauthd.Properties." + prop]
 
 
 def checker_cmd(prop):
